@@ -243,7 +243,7 @@ func schedules(n int) [][]Op {
 	var a, b, c []Op
 	// a: read each member right after it is returned; then two more Next
 	for i := 0; i < n; i++ {
-		a = append(a, nx, Op{"all", i})
+		a = append(a, nx, Op{K: "all", I: i})
 	}
 	a = append(a, nx, nx)
 	// b: iterate to the end (two EOFs) first, then use the readers last to first: part, rest, rewind
@@ -251,19 +251,19 @@ func schedules(n int) [][]Op {
 		b = append(b, nx)
 	}
 	for i := n - 1; i >= 0; i-- {
-		b = append(b, Op{"part", i}, Op{"all", i}, Op{"seek", i})
+		b = append(b, Op{K: "part", I: i}, Op{K: "all", I: i}, Op{K: "seek", I: i})
 	}
 	b = append(b, nx)
 	// c: after each Next re-read every earlier member from the start, first to last
 	for i := 0; i < n; i++ {
 		c = append(c, nx)
 		for j := 0; j <= i; j++ {
-			c = append(c, Op{"seek", j})
+			c = append(c, Op{K: "seek", I: j})
 		}
 	}
 	c = append(c, nx)
 	for j := 0; j < n; j++ {
-		c = append(c, Op{"part", j})
+		c = append(c, Op{K: "part", I: j})
 	}
 	return [][]Op{a, b, c}
 }
@@ -548,6 +548,9 @@ func Run(r *mc.Run) {
 				return !r.Expired()
 			})
 	}
+
+	// ---- scenario 1d: members that are tars - IsTarfile / Tarfile called directly on what Next returns ----
+	tarScenarios(r)
 
 	// ---- scenario 2: every operation sequence ----
 	type plan struct {
